@@ -14,3 +14,19 @@ Print Assumptions C18_eq_reflexive.
 Theorem C18_eq_symmetric : forall p q : prog, prog_eq p q = prog_eq q p.
 Proof. exact prog_eq_sym. Qed.
 Print Assumptions C18_eq_symmetric.
+
+(* program_equivalence compares the dependency DAGs (plus node labels) of the two programs.  Swapping two
+   adjacent commands that share no mode and no measured-parameter link changes no wire of the grid and
+   hence no edge of the DAG: the two programs have literally the same DAG, so `equivalence` cannot tell
+   them apart — reordering commuting commands never turns equivalent programs into inequivalent ones. *)
+From SFV Require Import Base.Reorder.
+Theorem C18_equiv_commute : forall (A : Type) (deps : A -> list nat) (l1 l2 : list A) (a b x y : A),
+  independent A deps a b ->
+  (edge A deps (l1 ++ a :: b :: l2) x y <-> edge A deps (l1 ++ b :: a :: l2) x y).
+Proof. exact swap_independent_edges. Qed.
+Print Assumptions C18_equiv_commute.
+
+Theorem C18_equiv_commute_wires : forall (A : Type) (deps : A -> list nat) (l1 l2 : list A) (a b : A) (w : nat),
+  independent A deps a b -> wire A deps (l1 ++ a :: b :: l2) w = wire A deps (l1 ++ b :: a :: l2) w.
+Proof. exact swap_independent_wire. Qed.
+Print Assumptions C18_equiv_commute_wires.
